@@ -165,6 +165,7 @@ pub broadcast axiom fn axiom_sigkey_cmp()
 pub axiom fn axiom_sigkey_ext(a: TransitionsToPartitionGroups, b: TransitionsToPartitionGroups)
     ensures a.0@ == b.0@ ==> a == b;
 /// x and y cannot be told apart by one step into the groups of p
+#[verifier::opaque]
 pub open spec fn same_sig(tm: TMapV, p: PartV, x: StateID, y: StateID) -> bool {
     forall|cc: CharClassID, h: int| #![trigger sig_tm(tm, p, x, cc, h)] #![trigger sig_tm(tm, p, y, cc, h)] 0 <= h < p.len() ==> (sig_tm(tm, p, x, cc, h) <==> sig_tm(tm, p, y, cc, h))
 }
@@ -177,19 +178,21 @@ pub open spec fn split_inv(tm: TMapV, p: PartV, mv: KeyMapV, done: Seq<StateID>)
 }
 pub open spec fn set_nonempty(s: Set<StateID>) -> bool { exists|x: StateID| #[trigger] s.contains(x) }
 pub open spec fn has_key_with(mv: KeyMapV, x: StateID) -> bool { exists|k: TransitionsToPartitionGroups| #[trigger] mv.contains_key(k) && mv[k]@.contains(x) }
+#[verifier::opaque]
 pub open spec fn in_some(r: PartV, x: StateID) -> bool { exists|i: int| 0 <= i < r.len() && #[trigger] r[i].contains(x) }
 /// the pieces a group is split into
 pub open spec fn split_ok(tm: TMapV, p: PartV, grp0: Set<StateID>, r: PartV) -> bool {
     &&& forall|i: int, x: StateID| 0 <= i < r.len() && #[trigger] r[i].contains(x) ==> grp0.contains(x)
     &&& forall|i: int| 0 <= i < r.len() ==> set_nonempty(#[trigger] r[i])
     &&& forall|x: StateID| #[trigger] grp0.contains(x) ==> in_some(r, x)
-    &&& forall|i: int, j: int, x: StateID| 0 <= i < r.len() && 0 <= j < r.len() && #[trigger] r[i].contains(x) && #[trigger] r[j].contains(x) ==> i == j
+    &&& groups_disjoint(r)
     &&& forall|i: int, x: StateID, y: StateID| 0 <= i < r.len() && #[trigger] r[i].contains(x) && #[trigger] r[i].contains(y) ==> same_sig(tm, p, x, y)
 }
 pub proof fn lemma_sigvec_same(tm: TMapV, p: PartV, x: StateID, y: StateID, v: Seq<(CharClassID, StateGroupID)>)
     requires sigvec_ok(tm, p, x, v), sigvec_ok(tm, p, y, v), p.len() <= u32::MAX
     ensures same_sig(tm, p, x, y)
 {
+    reveal(same_sig);
     reveal(sigvec_ok);
     assert forall|cc: CharClassID, h: int| #![trigger sig_tm(tm, p, x, cc, h)] #![trigger sig_tm(tm, p, y, cc, h)] 0 <= h < p.len() implies (sig_tm(tm, p, x, cc, h) <==> sig_tm(tm, p, y, cc, h)) by {
         let g = StateGroupID(h as u32);
@@ -211,6 +214,9 @@ pub proof fn lemma_single_group(tm: TMapV, p: PartV, g: Set<StateID>)
     requires g.len() == 1, g.finite()
     ensures split_ok(tm, p, g, seq![g])
 {
+    reveal(in_some);
+    reveal(groups_disjoint);
+    reveal(same_sig);
     let r = seq![g];
     assert(set_nonempty(g)) by {
         if !set_nonempty(g) { assert(g =~= Set::<StateID>::empty()); }
@@ -252,6 +258,7 @@ pub proof fn lemma_split_f3(tm: TMapV, p: PartV, mv: KeyMapV, g: Set<StateID>, d
         forall|k: TransitionsToPartitionGroups| #[trigger] mv.contains_key(k) ==> ks.contains(k),
     ensures forall|x: StateID| #[trigger] g.contains(x) ==> in_some(pv(r), x)
 {
+    reveal(in_some);
     let rv = pv(r);
     assert forall|x: StateID| #[trigger] g.contains(x) implies in_some(rv, x) by {
         assert(done.contains(x));
@@ -267,8 +274,9 @@ pub proof fn lemma_split_f4(tm: TMapV, p: PartV, mv: KeyMapV, g: Set<StateID>, d
         split_inv(tm, p, mv, done), p.len() <= u32::MAX, forall|x: StateID| #[trigger] g.contains(x) <==> done.contains(x),
         ks.len() == r.len(), ks.no_duplicates(), forall|i: int| 0 <= i < ks.len() ==> mv.contains_key(#[trigger] ks[i]) && r[i] == mv[ks[i]],
         forall|k: TransitionsToPartitionGroups| #[trigger] mv.contains_key(k) ==> ks.contains(k),
-    ensures forall|i: int, j: int, x: StateID| 0 <= i < pv(r).len() && 0 <= j < pv(r).len() && #[trigger] pv(r)[i].contains(x) && #[trigger] pv(r)[j].contains(x) ==> i == j
+    ensures groups_disjoint(pv(r))
 {
+    reveal(groups_disjoint);
     let rv = pv(r);
     assert forall|i: int, j: int, x: StateID| 0 <= i < rv.len() && 0 <= j < rv.len() && #[trigger] rv[i].contains(x) && #[trigger] rv[j].contains(x) implies i == j by {
         assert(mv.contains_key(ks[i]) && mv.contains_key(ks[j]));
@@ -343,6 +351,7 @@ pub proof fn lemma_split_step(tm: TMapV, p: PartV, mv0: KeyMapV, mv1: KeyMapV, d
 
 // ---------------------------------------------------------------- calculate_new_partition: all groups split, pieces in order
 pub open spec fn all_nonempty(p: PartV) -> bool { forall|g: int| 0 <= g < p.len() ==> set_nonempty(#[trigger] p[g]) }
+#[verifier::opaque]
 pub open spec fn groups_disjoint(p: PartV) -> bool {
     forall|g: int, h: int, x: StateID| 0 <= g < p.len() && 0 <= h < p.len() && #[trigger] p[g].contains(x) && #[trigger] p[h].contains(x) ==> g == h
 }
@@ -357,52 +366,114 @@ pub open spec fn refined(tm: TMapV, old: PartV, new: PartV, org: Seq<int>, idx: 
     &&& new.len() >= idx
     &&& new.len() == idx ==> forall|j: int| 0 <= j < idx ==> #[trigger] new[j] == old[j]
 }
-pub proof fn lemma_refine_step(tm: TMapV, old: PartV, new0: PartV, org0: Seq<int>, idx: int, pieces: PartV)
+/// new1 is new0 followed by pieces (stated element-wise: sequence concatenation terms make the solver wander)
+pub open spec fn is_cat(new0: PartV, pieces: PartV, new1: PartV) -> bool {
+    &&& new1.len() == new0.len() + pieces.len()
+    &&& forall|i: int| 0 <= i < new0.len() ==> #[trigger] new1[i] == new0[i]
+    &&& forall|i: int| new0.len() <= i < new1.len() ==> #[trigger] new1[i] == pieces[i - new0.len()]
+}
+pub open spec fn is_cat_org(org0: Seq<int>, idx: int, k: int, org1: Seq<int>) -> bool {
+    &&& org1.len() == org0.len() + k
+    &&& forall|i: int| 0 <= i < org0.len() ==> #[trigger] org1[i] == org0[i]
+    &&& forall|i: int| org0.len() <= i < org1.len() ==> #[trigger] org1[i] == idx
+}
+pub proof fn lemma_concat_disjoint(old: PartV, new0: PartV, org0: Seq<int>, idx: int, pieces: PartV, new1: PartV)
+    requires
+        groups_disjoint(old), groups_disjoint(new0), groups_disjoint(pieces), org0.len() == new0.len(), 0 <= idx < old.len(), is_cat(new0, pieces, new1),
+        forall|i: int| 0 <= i < new0.len() ==> 0 <= #[trigger] org0[i] < idx,
+        forall|i: int, x: StateID| 0 <= i < new0.len() && #[trigger] new0[i].contains(x) ==> old[org0[i]].contains(x),
+        forall|i: int, x: StateID| 0 <= i < pieces.len() && #[trigger] pieces[i].contains(x) ==> old[idx].contains(x),
+    ensures groups_disjoint(new1)
+{
+    reveal(groups_disjoint);
+    let n0 = new0.len() as int;
+    assert forall|g: int, h: int, x: StateID| 0 <= g < new1.len() && 0 <= h < new1.len() && #[trigger] new1[g].contains(x) && #[trigger] new1[h].contains(x) implies g == h by {
+        if g < n0 { assert(new1[g] == new0[g]); } else { assert(new1[g] == pieces[g - n0]); }
+        if h < n0 { assert(new1[h] == new0[h]); } else { assert(new1[h] == pieces[h - n0]); }
+        if g < n0 && h < n0 { assert(new0[g].contains(x) && new0[h].contains(x)); }
+        else if g >= n0 && h >= n0 { assert(pieces[g - n0].contains(x) && pieces[h - n0].contains(x)); }
+        else if g < n0 { assert(new0[g].contains(x)); assert(old[org0[g]].contains(x)); assert(pieces[h - n0].contains(x)); assert(old[idx].contains(x)); }
+        else { assert(new0[h].contains(x)); assert(old[org0[h]].contains(x)); assert(pieces[g - n0].contains(x)); assert(old[idx].contains(x)); }
+    }
+}
+pub proof fn lemma_refine_s1(tm: TMapV, old: PartV, new0: PartV, org0: Seq<int>, idx: int, pieces: PartV, new1: PartV, org1: Seq<int>)
     requires
         refined(tm, old, new0, org0, idx), 0 <= idx < old.len(), split_ok(tm, old, old[idx], pieces),
-        groups_disjoint(old), all_nonempty(old),
+        groups_disjoint(old), all_nonempty(old), is_cat(new0, pieces, new1), is_cat_org(org0, idx, pieces.len() as int, org1),
     ensures
-        refined(tm, old, new0 + pieces, org0 + Seq::new(pieces.len(), |i: int| idx), idx + 1), pieces.len() >= 1,
+        pieces.len() >= 1, org1.len() == new1.len(),
+        forall|i: int| 0 <= i < new1.len() ==> 0 <= #[trigger] org1[i] < idx + 1 && set_nonempty(new1[i]),
+        forall|i: int, x: StateID| 0 <= i < new1.len() && #[trigger] new1[i].contains(x) ==> old[org1[i]].contains(x),
 {
-    let new1 = new0 + pieces;
-    let org1 = org0 + Seq::new(pieces.len(), |i: int| idx);
+    reveal(in_some);
     let n0 = new0.len() as int;
     assert(set_nonempty(old[idx]));
     let w = choose|w: StateID| #[trigger] old[idx].contains(w);
     assert(in_some(pieces, w));
     assert forall|i: int| 0 <= i < new1.len() implies 0 <= #[trigger] org1[i] < idx + 1 && set_nonempty(new1[i]) by {
-        if i < n0 { assert(new1[i] == new0[i] && org1[i] == org0[i]); } else { assert(new1[i] == pieces[i - n0]); }
+        if i < n0 { assert(new1[i] == new0[i] && org1[i] == org0[i]); } else { assert(new1[i] == pieces[i - n0]); assert(org1[i] == idx); }
     }
     assert forall|i: int, x: StateID| 0 <= i < new1.len() && #[trigger] new1[i].contains(x) implies old[org1[i]].contains(x) by {
-        if i < n0 { assert(new1[i] == new0[i] && org1[i] == org0[i]); } else { assert(new1[i] == pieces[i - n0]); }
+        if i < n0 { assert(new1[i] == new0[i] && org1[i] == org0[i]); } else { assert(new1[i] == pieces[i - n0]); assert(org1[i] == idx); }
     }
+}
+pub proof fn lemma_refine_s2(tm: TMapV, old: PartV, new0: PartV, org0: Seq<int>, idx: int, pieces: PartV, new1: PartV, org1: Seq<int>)
+    requires
+        refined(tm, old, new0, org0, idx), 0 <= idx < old.len(), split_ok(tm, old, old[idx], pieces),
+        groups_disjoint(old), all_nonempty(old), is_cat(new0, pieces, new1), is_cat_org(org0, idx, pieces.len() as int, org1),
+    ensures forall|j: int, x: StateID| 0 <= j < idx + 1 && #[trigger] old[j].contains(x) ==> in_some(new1, x)
+{
+    reveal(in_some);
+    let n0 = new0.len() as int;
     assert forall|j: int, x: StateID| 0 <= j < idx + 1 && #[trigger] old[j].contains(x) implies in_some(new1, x) by {
-        if j < idx { assert(in_some(new0, x)); let i = choose|i: int| 0 <= i < new0.len() && #[trigger] new0[i].contains(x); assert(new1[i].contains(x)); }
-        else { assert(in_some(pieces, x)); let i = choose|i: int| 0 <= i < pieces.len() && #[trigger] pieces[i].contains(x); assert(new1[n0 + i] == pieces[i]); assert(new1[n0 + i].contains(x)); }
+        if j < idx { assert(in_some(new0, x)); let i = choose|i: int| 0 <= i < new0.len() && #[trigger] new0[i].contains(x); assert(new1[i] == new0[i]); assert(new1[i].contains(x)); }
+        else { assert(in_some(pieces, x)); let i = choose|i: int| 0 <= i < pieces.len() && #[trigger] pieces[i].contains(x); assert(new1[n0 + i] == pieces[n0 + i - n0]); assert(new1[n0 + i].contains(x)); }
     }
-    assert(groups_disjoint(new1)) by {
-        assert forall|g: int, h: int, x: StateID| 0 <= g < new1.len() && 0 <= h < new1.len() && #[trigger] new1[g].contains(x) && #[trigger] new1[h].contains(x) implies g == h by {
-            if g < n0 && h < n0 { assert(new0[g].contains(x) && new0[h].contains(x)); }
-            else if g >= n0 && h >= n0 { assert(pieces[g - n0].contains(x) && pieces[h - n0].contains(x)); }
-            else if g < n0 { assert(new0[g].contains(x)); assert(old[org0[g]].contains(x)); assert(pieces[h - n0].contains(x)); assert(old[idx].contains(x)); }
-            else { assert(new0[h].contains(x)); assert(old[org0[h]].contains(x)); assert(pieces[g - n0].contains(x)); assert(old[idx].contains(x)); }
-        }
-    }
+}
+pub proof fn lemma_refine_s3(tm: TMapV, old: PartV, new0: PartV, org0: Seq<int>, idx: int, pieces: PartV, new1: PartV, org1: Seq<int>)
+    requires
+        refined(tm, old, new0, org0, idx), 0 <= idx < old.len(), split_ok(tm, old, old[idx], pieces),
+        groups_disjoint(old), all_nonempty(old), is_cat(new0, pieces, new1), is_cat_org(org0, idx, pieces.len() as int, org1),
+    ensures forall|i: int, x: StateID, y: StateID| 0 <= i < new1.len() && #[trigger] new1[i].contains(x) && #[trigger] new1[i].contains(y) ==> same_sig(tm, old, x, y)
+{
+    let n0 = new0.len() as int;
     assert forall|i: int, x: StateID, y: StateID| 0 <= i < new1.len() && #[trigger] new1[i].contains(x) && #[trigger] new1[i].contains(y) implies same_sig(tm, old, x, y) by {
-        if i < n0 { assert(new0[i].contains(x) && new0[i].contains(y)); } else { assert(pieces[i - n0].contains(x) && pieces[i - n0].contains(y)); }
+        if i < n0 { assert(new1[i] == new0[i]); assert(new0[i].contains(x) && new0[i].contains(y)); } else { assert(new1[i] == pieces[i - n0]); assert(pieces[i - n0].contains(x) && pieces[i - n0].contains(y)); }
     }
+}
+pub proof fn lemma_refine_s4(tm: TMapV, old: PartV, new0: PartV, org0: Seq<int>, idx: int, pieces: PartV, new1: PartV, org1: Seq<int>)
+    requires
+        refined(tm, old, new0, org0, idx), 0 <= idx < old.len(), split_ok(tm, old, old[idx], pieces),
+        groups_disjoint(old), all_nonempty(old), is_cat(new0, pieces, new1), is_cat_org(org0, idx, pieces.len() as int, org1),
+        pieces.len() >= 1,
+    ensures new1.len() >= idx + 1, new1.len() == idx + 1 ==> forall|j: int| 0 <= j < idx + 1 ==> #[trigger] new1[j] == old[j]
+{
+    reveal(in_some);
+    let n0 = new0.len() as int;
     if new1.len() == idx + 1 {
         assert(n0 == idx && pieces.len() == 1);
         assert forall|j: int| 0 <= j < idx + 1 implies #[trigger] new1[j] == old[j] by {
             if j < idx { assert(new1[j] == new0[j]); } else {
-                assert(new1[j] == pieces[0]);
+                assert(new1[j] == pieces[j - n0]);
                 assert forall|x: StateID| pieces[0].contains(x) <==> old[idx].contains(x) by {
-                    if old[idx].contains(x) { assert(in_some(pieces, x)); }
+                    if old[idx].contains(x) { assert(in_some(pieces, x)); let i = choose|i: int| 0 <= i < pieces.len() && #[trigger] pieces[i].contains(x); assert(i == 0); }
                 }
                 assert(pieces[0] =~= old[idx]);
             }
         }
     }
+}
+pub proof fn lemma_refine_step(tm: TMapV, old: PartV, new0: PartV, org0: Seq<int>, idx: int, pieces: PartV, new1: PartV, org1: Seq<int>)
+    requires
+        refined(tm, old, new0, org0, idx), 0 <= idx < old.len(), split_ok(tm, old, old[idx], pieces),
+        groups_disjoint(old), all_nonempty(old), is_cat(new0, pieces, new1), is_cat_org(org0, idx, pieces.len() as int, org1),
+    ensures refined(tm, old, new1, org1, idx + 1), pieces.len() >= 1
+{
+    lemma_refine_s1(tm, old, new0, org0, idx, pieces, new1, org1);
+    lemma_refine_s2(tm, old, new0, org0, idx, pieces, new1, org1);
+    lemma_refine_s3(tm, old, new0, org0, idx, pieces, new1, org1);
+    lemma_refine_s4(tm, old, new0, org0, idx, pieces, new1, org1);
+    lemma_concat_disjoint(old, new0, org0, idx, pieces, new1);
 }
 /// what a full round gives
 pub proof fn lemma_refine_final(d: CompiledDfa, tm: TMapV, old: PartV, new: PartV, org: Seq<int>, n: int)
@@ -412,6 +483,8 @@ pub proof fn lemma_refine_final(d: CompiledDfa, tm: TMapV, old: PartV, new: Part
         part_ok(new, n), acc_homog(d, new), all_nonempty(new),
         forall|g: int, x: StateID| 0 <= g < new.len() && #[trigger] new[g].contains(x) ==> old[org[g]].contains(x),
 {
+    reveal(in_some);
+    reveal(groups_disjoint);
     assert forall|s: int| 0 <= s < n implies #[trigger] has_grp(new, s) by {
         assert(has_grp(old, s));
         let g = choose|g: int| #[trigger] in_grp(old, g, s);
@@ -472,6 +545,7 @@ pub proof fn lemma_stable_from_tm(d: CompiledDfa, tm: TMapV, p: PartV)
     requires tm_ok(d, tm), self_stable(tm, p), part_ok(p, d.states@.len() as int)
     ensures stable(d, p)
 {
+    reveal(same_sig);
     assert forall|g: int, s1: int, s2: int, cc: CharClassID, h: int| #![trigger in_grp(p, g, s1), in_grp(p, g, s2), sig(d, p, s1, cc, h)]
         in_grp(p, g, s1) && in_grp(p, g, s2) && sig(d, p, s1, cc, h) implies sig(d, p, s2, cc, h) by {
         let x = StateID(s1 as u32);
@@ -626,6 +700,7 @@ pub proof fn lemma_perm_props(d: CompiledDfa, tm: TMapV, p1: Seq<BTreeSet<StateI
         acc_homog(d, pv(p1)), self_stable(tm, pv(p1)),
     ensures acc_homog(d, pv(p2)), self_stable(tm, pv(p2))
 {
+    reveal(same_sig);
     let v1 = pv(p1);
     let v2 = pv(p2);
     assert forall|g: int, s1: int, s2: int| #![trigger in_grp(v2, g, s1), in_grp(v2, g, s2)]
@@ -765,4 +840,83 @@ pub proof fn lemma_sorted_pos_unique(tv: Seq<TvEntry>, s: StateID, i: int, j: in
 
 pub open spec fn rem_edge<'a>(rem: Seq<(&'a CharClassID, &'a Vec<StateID>)>, k: int, cc: CharClassID, t: StateID) -> bool {
     exists|i: int| 0 <= i < k && i < rem.len() && *(#[trigger] rem[i]).0 == cc && rem[i].1@.contains(t)
+}
+
+// ---------------------------------------------------------------- merge_transitions: one entry per group survives, holding the edges of all members
+pub type AbV = Map<StateID, StateID>;
+pub open spec fn grp_min(p: PartV, g: int, r: StateID) -> bool { 0 <= g < p.len() && p[g].contains(r) && forall|z: StateID| #[trigger] p[g].contains(z) ==> r.0 <= z.0 }
+/// edges an entry with state r holds: r's own and those of the states absorbed into r
+pub open spec fn own_or_absorbed(tm: TMapV, ab: AbV, r: StateID, cc: CharClassID, t: StateID) -> bool {
+    tm_edge(tm, r, cc, t) || exists|x: StateID| #[trigger] ab.contains_key(x) && ab[x] == r && tm_edge(tm, x, cc, t)
+}
+pub open spec fn merged_inv(tm: TMapV, p: PartV, tv: Seq<TvEntry>, ab: AbV, n: int) -> bool {
+    &&& tv_sorted(tv)
+    &&& forall|i: int| 0 <= i < tv.len() ==> (#[trigger] tv[i]).0.0 < n && !ab.contains_key(tv[i].0)
+    &&& forall|s: StateID| s.0 < n && !(#[trigger] ab.contains_key(s)) ==> tv_has(tv, s)
+    &&& forall|i: int, cc: CharClassID, t: StateID| 0 <= i < tv.len() ==> (#[trigger] tv_edge(tv, i, cc, t) <==> own_or_absorbed(tm, ab, tv[i].0, cc, t))
+    &&& forall|x: StateID| #[trigger] ab.contains_key(x) ==> x.0 < n && absorbed_ok(p, x, ab[x])
+}
+pub open spec fn tv_has(tv: Seq<TvEntry>, s: StateID) -> bool { exists|i: int| #[trigger] tv_pos(tv, s, i) }
+/// x was absorbed into the least member of its own group
+pub open spec fn absorbed_ok(p: PartV, x: StateID, r: StateID) -> bool { exists|g: int| #[trigger] grp_min(p, g, r) && p[g].contains(x) && r != x }
+
+pub proof fn lemma_merge_step(tm: TMapV, p: PartV, tv0: Seq<TvEntry>, tv1: Seq<TvEntry>, ab: AbV, n: int, r: StateID, x: StateID, rp: int, sp: int, g: int)
+    requires
+        merged_inv(tm, p, tv0, ab, n), merged_one(tv0, tv1, r, x, rp, sp), tv_sorted(tv1),
+        grp_min(p, g, r), p[g].contains(x), r != x, groups_disjoint(p),
+    ensures merged_inv(tm, p, tv1, ab.insert(x, r), n)
+{
+    reveal(groups_disjoint);
+    let ab1 = ab.insert(x, r);
+    // nothing was absorbed into x: x is not the least member of its group
+    assert forall|y: StateID| ab.contains_key(y) implies ab[y] != x by {
+        if ab[y] == x {
+            assert(absorbed_ok(p, y, x));
+            let g2 = choose|g2: int| #[trigger] grp_min(p, g2, x) && p[g2].contains(y) && x != y;
+            assert(p[g2].contains(x) && p[g].contains(x));
+            assert(g2 == g);
+            assert(p[g].contains(r)); assert(x.0 <= r.0); assert(r.0 <= x.0);
+        }
+    }
+    assert forall|i: int| 0 <= i < tv1.len() implies (#[trigger] tv1[i]).0.0 < n && !ab1.contains_key(tv1[i].0) by {
+        let i0 = if i < sp { i } else { i + 1 };
+        if i == rp { assert(tv1[i].0 == tv0[rp].0); } else { assert(tv1[i] == tv0[i0]); }
+        assert(tv1[i].0 == tv0[i0].0);
+        if i0 < sp { assert(tv0[i0].0.0 < tv0[sp].0.0); } else { assert(tv0[sp].0.0 < tv0[i0].0.0); }
+    }
+    assert forall|s: StateID| s.0 < n && !(#[trigger] ab1.contains_key(s)) implies tv_has(tv1, s) by {
+        assert(!ab.contains_key(s) && s != x);
+        assert(tv_has(tv0, s));
+        let i0 = choose|i0: int| #[trigger] tv_pos(tv0, s, i0);
+        let i = if i0 < sp { i0 } else { i0 - 1 };
+        if i == rp { assert(tv1[i].0 == r); } else { assert(tv1[i] == tv0[i0]); }
+        assert(tv_pos(tv1, s, i));
+    }
+    assert forall|i: int, cc: CharClassID, t: StateID| 0 <= i < tv1.len() implies (#[trigger] tv_edge(tv1, i, cc, t) <==> own_or_absorbed(tm, ab1, tv1[i].0, cc, t)) by {
+        let i0 = if i < sp { i } else { i + 1 };
+        if i == rp {
+            assert(tv_edge(tv1, i, cc, t) <==> map_edge(tv1[rp].1@, cc, t));
+            assert(map_edge(tv0[rp].1@, cc, t) <==> tv_edge(tv0, rp, cc, t));
+            assert(map_edge(tv0[sp].1@, cc, t) <==> tv_edge(tv0, sp, cc, t));
+            assert(tv_edge(tv0, rp, cc, t) <==> own_or_absorbed(tm, ab, r, cc, t));
+            assert(tv_edge(tv0, sp, cc, t) <==> own_or_absorbed(tm, ab, x, cc, t));
+            assert(own_or_absorbed(tm, ab, x, cc, t) <==> tm_edge(tm, x, cc, t));
+            if own_or_absorbed(tm, ab, r, cc, t) && !tm_edge(tm, r, cc, t) { let y = choose|y: StateID| #[trigger] ab.contains_key(y) && ab[y] == r && tm_edge(tm, y, cc, t); assert(ab1.contains_key(y) && ab1[y] == r); }
+            if tm_edge(tm, x, cc, t) { assert(ab1.contains_key(x) && ab1[x] == r); }
+            if own_or_absorbed(tm, ab1, r, cc, t) && !tm_edge(tm, r, cc, t) {
+                let y = choose|y: StateID| #[trigger] ab1.contains_key(y) && ab1[y] == r && tm_edge(tm, y, cc, t);
+                if y != x { assert(ab.contains_key(y) && ab[y] == r); }
+            }
+        } else {
+            assert(tv1[i] == tv0[i0]);
+            assert(tv_edge(tv1, i, cc, t) <==> tv_edge(tv0, i0, cc, t));
+            let s = tv0[i0].0;
+            assert(s != r) by { if s == r { lemma_sorted_pos_unique(tv0, r, i0, rp); } }
+            if own_or_absorbed(tm, ab, s, cc, t) && !tm_edge(tm, s, cc, t) { let y = choose|y: StateID| #[trigger] ab.contains_key(y) && ab[y] == s && tm_edge(tm, y, cc, t); assert(y != x); assert(ab1.contains_key(y) && ab1[y] == s); }
+            if own_or_absorbed(tm, ab1, s, cc, t) && !tm_edge(tm, s, cc, t) { let y = choose|y: StateID| #[trigger] ab1.contains_key(y) && ab1[y] == s && tm_edge(tm, y, cc, t); assert(y != x); assert(ab.contains_key(y) && ab[y] == s); }
+        }
+    }
+    assert forall|y: StateID| #[trigger] ab1.contains_key(y) implies y.0 < n && absorbed_ok(p, y, ab1[y]) by {
+        if y == x { assert(tv0[sp].0 == x); assert(grp_min(p, g, r) && p[g].contains(x) && r != x); }
+    }
 }
